@@ -1,7 +1,10 @@
 /-
   Families of area block, part 3 (checksum.go): `cksumfile` (VerifyFileChecksums on files whose
-  blocks are zero / carry the checksum the tool's own function computes / carry another one) and
-  `cksumdir` (VerifyDataDirChecksums on generated data directories).
+  blocks are zero / carry PostgreSQL's checksum for their relation-wide number / carry another one),
+  `cksumdir` (VerifyDataDirChecksums on generated data directories), `toolcksum` (the tool's checksum functions on
+  arbitrary input) and `pgcksum` (the verdict for one block against PostgreSQL's).
+  MODEL columns are computed with the model of the Go code (`ck` = `Model.computePageChecksum`), SPEC columns and the
+  stamping of generated blocks with the Spec's `pg_checksum_page` (`pg` = `Spec.PgChecksum.pgChecksumPage`).
 -/
 import Driver.Fam.Block
 import PgVerif.Model.Checksum
@@ -11,6 +14,9 @@ open PgVerif Driver Driver.Fam.Block
 open PgVerif.Spec.BlockAddr
 
 def ck := Model.computePageChecksum
+
+/-- PostgreSQL's function (Spec side; knows nothing about the Go code) -/
+def pg := Spec.PgChecksum.pgChecksumPage
 
 def showErr (c : Model.ChecksumResult) : String := s!"{c.blockNumber}:{c.stored}:{c.computed}"
 def showErrView (c : CkError) : String := s!"{c.number}:{c.stored}:{c.computed}"
@@ -26,9 +32,9 @@ inductive Kind where
   | zero | good | bad
 deriving Repr, DecidableEq, Inhabited
 
-/-- give a block the stored checksum the tool computes for it (good) or a different one (bad) -/
+/-- give a block the stored checksum PostgreSQL computes for it as block `number` (good) or a different one (bad) -/
 def stamp (b : RawBlock) (number : Nat) (good : Bool) (delta : Nat) : RawBlock :=
-  let c := ck (encBlock b) number
+  let c := pg (encBlock b) number
   { b with hdr := { b.hdr with checksum := if good then c else (c + 1 + delta % 65535) % 65536 } }
 
 def genStamped (seg : Nat) (n : Nat) : Gen (List RawBlock × Nat) := do
@@ -63,7 +69,7 @@ def cksumfileGen (seed idx size : Nat) : Case :=
   { tags := [if seg == 0 then "seg=0" else if seg ≤ 12 then "seg<=12" else "seg>12",
              if nbad == 0 then "bad=0" else "bad>0", if f.tail.isEmpty then "tail=0" else "tail=partial"] ++
             (if f.blocks.length > 0 then ["nt"] else []),
-    model := cksumfileOut data seg, spec := showFileView (ckFileView ck seg f.blocks),
+    model := cksumfileOut data seg, spec := showFileView (ckFileView pg seg f.blocks),
     args := [toString seg, hexRle data] }
 
 def cksumfileEval (args : List String) : String :=
@@ -332,7 +338,7 @@ def cksumdirGen (seed idx size : Nat) : Case :=
     let rest ← Gen.shuffle (fl.drop 1)
     return (d, nbad, fl.take 1 ++ rest)
   let (d, nbad, flat) := g.run' (Prng.ofSeed seed idx)
-  let view := ckDirView ck d
+  let view := ckDirView pg d
   let wf := decide d.WF          -- the hypothesis of Props.C19.C19_cksum_dir_spec, checked on every generated directory
   let allDbs := d.base.dbs ++ d.globalDir.toList ++ d.tablespaces.flatMap (·.dbs.dbs)
   let visited (p : SegFile → Bool) := allDbs.any fun db => db.segs.any fun s => p s && s.file.blocks.length ≥ 1
@@ -347,12 +353,13 @@ def cksumdirEval (args : List String) : String := cksumdirOut (parseFlat args)
 
 def cksumdir : Family := { name := "cksumdir", gen := cksumdirGen, eval := cksumdirEval, fixed := fixedDataDirs.length }
 
-/-! ## toolcksum: the tool's own two checksum functions on arbitrary input (reached by name in the harness) -/
+/-! ## toolcksum: the tool's two checksum functions on arbitrary input (reached by name in the harness) -/
 
 def toolcksumOut (data : Bytes) (bn : Nat) : String :=
   s!"{Model.computePageChecksum data bn}:{Model.pgChecksumBlock data bn}"
 
-/-- args: block number, data (any length).  The spec is silent: these functions are the tool's own. -/
+/-- args: block number, data (any length).  `pg_checksum_page` is defined on whole pages only: the spec speaks
+where the data has exactly 8192 bytes (both functions must give PostgreSQL's value) and is silent elsewhere. -/
 def toolcksumGen (seed idx _size : Nat) : Case :=
   let g : Gen (Nat × Bytes) := do
     let bn ← Gen.Block.gen32
@@ -365,7 +372,9 @@ def toolcksumGen (seed idx _size : Nat) : Case :=
     return (bn, data)
   let (bn, data) := g.run' (Prng.ofSeed seed idx)
   { tags := [if data.length < 8192 then "len<8192" else if data.length == 8192 then "len=8192" else "len>8192", "nt"],
-    model := toolcksumOut data bn, spec := "-", args := [toString bn, hexRle data] }
+    model := toolcksumOut data bn,
+    spec := if data.length == 8192 then s!"{pg data bn}:{pg data bn}" else "-",
+    args := [toString bn, hexRle data] }
 
 def toolcksumEval (args : List String) : String :=
   match args with
@@ -374,60 +383,92 @@ def toolcksumEval (args : List String) : String :=
 
 def toolcksum : Family := { name := "toolcksum", gen := toolcksumGen, eval := toolcksumEval, fixed := 0 }
 
-/-! ## pgcksum: the tool's verdict for one block against PostgreSQL's (open finding `C19-checksum-not-postgres`)
+/-! ## pgcksum: the tool's verdict for one block against PostgreSQL's (finding `C19-checksum-not-postgres`, repaired
+by fix 11)
 
-PostgreSQL's verdict is known without the base-offset table of `pg_checksum_page` exactly where the Spec's
-`pageVerdict` does not depend on the table: all-zero blocks (valid) and non-new blocks whose stored checksum is 0
-(invalid for every table: `Proofs.PgChecksum.pageVerdict_stored_zero`).  Elsewhere the spec column is "-". -/
+SPEC = `Spec.PgChecksum.pageVerdict` (bufpage.c `PageIsVerifiedExtended` / pg_checksums.c): an all-zero block is
+fine; a block that is not new (`pd_upper ≠ 0`) is valid exactly when its stored `pd_checksum` is
+`pg_checksum_page(block, blkno)`; for a block with `pd_upper = 0` that is not all zeros the Spec is silent ("-").
+Text: `<valid>:<stored>:<computed>` (an all-zero block is reported with stored = computed = 0). -/
 
 open PgVerif.Spec.PgChecksum in
-/-- the Spec's verdict where it is the same for every table -/
 def pgVerdictText (page : Bytes) (bn : Nat) : String :=
-  if allZero page || (pdUpper page != 0 && pdChecksum page == 0) then
-    match pageVerdict (List.replicate 32 0) page bn with
-    | some v => s!"{b2s v}:{pdChecksum page}"
-    | none => "-"
-  else "-"
-
-open PgVerif.Spec.PgChecksum in
-/-- the class of the open finding that is visible without the table: a non-new block with stored checksum 0 on
-which the tool's own function gives 0 -/
-def inNotPostgresClass (page : Bytes) (bn : Nat) : Bool :=
-  page.length == 8192 && !allZero page && pdUpper page != 0 && pdChecksum page == 0 &&
-    Model.computePageChecksum page bn == 0
+  match pageVerdict page bn with
+  | none => "-"
+  | some v => if allZero page then s!"{b2s v}:0:0" else s!"{b2s v}:{pdChecksum page}:{pgChecksumPage page bn}"
 
 def pgcksumOut (page : Bytes) (bn : Nat) : String :=
-  showM (fun (r : Model.ChecksumResult) => s!"{b2s r.valid}:{r.stored}") (Model.verifyPageChecksum ck page bn)
-
-/-- the tool's sum before the block number is mixed in -/
-def toolRaw (page : Bytes) : Nat := (Model.words32 (Model.pageCopy page)).foldl Model.checksumComp 0
+  showM (fun (r : Model.ChecksumResult) => s!"{b2s r.valid}:{r.stored}:{r.computed}") (Model.verifyPageChecksum ck page bn)
 
 /-- the witness of the finding (`Proofs.PgChecksum.witnessPage`): an empty heap page, stored checksum 0, block 0 -/
 def witnessPage : Bytes := zeros 12 ++ [24, 0, 0, 32, 0, 32, 4, 32] ++ zeros 8168 ++ [0x78, 0x48, 0, 0]
 
-def emptyHeapPage : Bytes := zeros 12 ++ [24, 0, 0, 32, 0, 32, 4, 32] ++ zeros 8172
+/-- the empty heap page of `PageInit` with the given stored checksum -/
+def emptyHeapPage (stored : Nat) : Bytes := zeros 8 ++ le 2 stored ++ zeros 2 ++ [24, 0, 0, 32, 0, 32, 4, 32] ++ zeros 8172
+
+/-- a used heap page (one line pointer, some data at the end) -/
+def usedBlock : RawBlock := ⟨⟨1, 0x2A, 0, 0, 28, 8160, 8192, 0x2004, 0⟩, [0xE0, 0x9F, 0x40, 0] ++ zeros 8132 ++ (List.range 32).map UInt8.ofNat⟩
+
+/-- relation-wide numbers of blocks of later segments: segment·131072 + block in file -/
+def laterSegmentNumbers : List Nat :=
+  [131072, 131073, 2 * 131072 - 1, 2 * 131072, 9 * 131072 + 5, 10 * 131072, 11 * 131072 + 131071, 12 * 131072 + 1,
+   100 * 131072 + 7, 32767 * 131072 + 131071]
 
 def pgcksumFixed : List (Bytes × Nat) :=
-  [(witnessPage, 0), (zeros 8192, 0), (zeros 8192, 7), (emptyHeapPage, 1), (emptyHeapPage, toolRaw emptyHeapPage),
-   (emptyHeapPage, toolRaw emptyHeapPage ^^^ (0x1234 * 65537))]
+  -- the (repaired) finding's witness; zero pages
+  [(witnessPage, 0), (zeros 8192, 0), (zeros 8192, 7), (zeros 8192, 131072),
+   -- the known values of the empty heap page: valid as block 0 / 1 / 7 …
+   (emptyHeapPage 0x6560, 0), (emptyHeapPage 0x655F, 1), (emptyHeapPage 0x655D, 7),
+   -- … and invalid under another number (a transposed page), one bit off, or with stored checksum 0
+   (emptyHeapPage 0x6560, 1), (emptyHeapPage 0x655F, 0), (emptyHeapPage 0x6561, 0), (emptyHeapPage 0xE560, 0),
+   (emptyHeapPage 0, 0)] ++
+  -- a used page stamped for a block of a later segment: valid there, invalid as the same block of segment 0
+  laterSegmentNumbers.flatMap (fun n =>
+    let p := encBlock (stamp usedBlock n true 0)
+    [(p, n), (p, n % 131072), (p, (n + 1) % 2 ^ 32)]) ++
+  [(encBlock (stamp usedBlock (2 ^ 32 - 1) true 0), 2 ^ 32 - 1), (encBlock (stamp usedBlock (2 ^ 32 - 1) true 0), 0)]
 
-/-- args: block number, page -/
+def genBlockNumber : Gen Nat := do
+  match ← Gen.below 5 with
+  | 0 => Gen.range 0 20
+  | 1 => return (← Gen.range 1 12) * 131072 + (← Gen.oneOf [0, 1, 2, 100, 131070, 131071])
+  | 2 => return ((← Gen.range 13 32767) * 131072 + (← Gen.below 131072)) % 2 ^ 32
+  | 3 => Gen.oneOf laterSegmentNumbers
+  | _ => Gen.Block.gen32
+
+/-- flip bit `k` of byte `i` -/
+def flipBit (bs : Bytes) (i k : Nat) : Bytes := bs.set i ((bs.getD i 0) ^^^ UInt8.ofNat (2 ^ (k % 8)))
+
+/-- args: block number, page.  Modes: `right` = the stored checksum is PostgreSQL's for this block number (valid);
+`bit` = that value with one bit flipped; `data` = right checksum, then one bit of the page flipped outside the field;
+`moved` = right for another block number (neighbour, or the same block of another segment); `zero` = stored 0;
+`any` = as generated -/
 def pgcksumGen (seed idx _size : Nat) : Case :=
-  let g : Gen (Bytes × Nat) := do
+  let g : Gen (Bytes × Nat × String) := do
     match pgcksumFixed[idx]? with
-    | some c => return c
+    | some (p, n) => return (p, n, "fixed")
     | none =>
       let b ← Gen.Block.genBlock
-      let mode ← Gen.below 4
-      let b : RawBlock := if mode < 3 then { b with hdr := { b.hdr with checksum := 0 } } else b
-      let page := encBlock b
-      let bn ← if mode < 2 then pure ((toolRaw page ^^^ ((← Gen.below 65536) * 65537)) % 2 ^ 32) else Gen.Block.gen32
-      return (page, bn)
-  let (page, bn) := g.run' (Prng.ofSeed seed idx)
-  let cls := inNotPostgresClass page bn
-  { tags := (if cls then ["kf:C19-checksum-not-postgres"] else []) ++
-            [if Spec.PgChecksum.allZero page then "zero" else if Spec.PgChecksum.pdUpper page == 0 then "new" else
-              if Spec.PgChecksum.pdChecksum page == 0 then "stored=0" else "stored>0", "nt"],
+      let bn ← genBlockNumber
+      match ← Gen.below 8 with
+      | 0 | 1 | 2 => return (encBlock (stamp b bn true 0), bn, "right")
+      | 3 =>
+        let c := pg (encBlock b) bn
+        return (encBlock { b with hdr := { b.hdr with checksum := c ^^^ 2 ^ (← Gen.below 16) } }, bn, "bit")
+      | 4 =>
+        let p := encBlock (stamp b bn true 0)
+        let i ← Gen.oneOf [0, 7, 10, 11, 23, 24, 127, 128, 4095, 4096, 8188, 8191, (← Gen.range 10 8191)]
+        return (flipBit p i (← Gen.below 8), bn, "data")
+      | 5 =>
+        let other ← Gen.oneOf [(bn + 1) % 2 ^ 32, (bn + 2 ^ 32 - 1) % 2 ^ 32, (bn + 131072) % 2 ^ 32, bn ^^^ 65535, bn ^^^ 65536]
+        return (encBlock (stamp b other true 0), bn, "moved")
+      | 6 => return (encBlock { b with hdr := { b.hdr with checksum := 0 } }, bn, "zero")
+      | _ => return (encBlock b, bn, "any")
+  let (page, bn, mode) := g.run' (Prng.ofSeed seed idx)
+  let verdict := match Spec.PgChecksum.pageVerdict page bn with
+    | none => "new"
+    | some v => if Spec.PgChecksum.allZero page then "zeropage" else if v then "valid" else "invalid"
+  { tags := [s!"mode={mode}", s!"verdict={verdict}", if bn < 131072 then "seg=0" else if bn < 13 * 131072 then "seg<=12" else "seg>12", "nt"],
     model := pgcksumOut page bn, spec := pgVerdictText page bn, args := [toString bn, hexRle page] }
 
 def pgcksumEval (args : List String) : String :=
